@@ -14,11 +14,12 @@ import vf
 SPECDIR = os.path.join(vf.SPEC, "merkle")
 HASHERS = 6
 THREADS = [1, 2, 3, 4, 7, 8, 16]
+MANY_THREADS = [65, 130]
 BIG = [32, 64, 128, 256, 512, 1024, 2048, 4096]
 
 META = dict(
     technique="TLA+ definitions of Merkle root/openings over free hash terms + TLC-checked transcription of the batch-proof algorithms; TLC-generated cases with expected results as terms replayed on the real MerkleTree/BatchMerkleProof (term evaluation with the real Hasher::merge)",
-    text="For every tree of 2..8 (thorough: 2..16) leaves, every non-empty index set in ascending order and every order of at most 4 indexes (plus seeded samples beyond: 16-leaf trees in the quick tier, longer unsorted lists, trees of 32..4096 leaves), TLC computes root, single openings and batch leaves from the definitions and checks the transcribed prove_batch / from_single_proofs / get_root / into_openings against them; the real code is then driven through the same cases with Blake3_256, Blake3_192, Sha3_256, Rp64_256, RpJive64_256 and Rp62_248 and must return exactly the digests the terms evaluate to (root, prove, prove_batch leaves, get_root, into_openings), accept its own proofs (verify, verify_batch) and build equal batch proofs on both routes. The concurrent build is replayed inside rayon pools of 1,2,3,4,7,8,16 threads for every size, and build_merkle_nodes / concurrent::build_merkle_nodes are compared node by node with the specification's table.",
+    text="For every tree of 2..8 (thorough: 2..16) leaves, every non-empty index set in ascending order and every order of at most 4 indexes (plus seeded samples beyond: 16-leaf trees in the quick tier, longer unsorted lists, trees of 32..4096 leaves), TLC computes root, single openings and batch leaves from the definitions and checks the transcribed prove_batch / from_single_proofs / get_root / into_openings against them; the real code is then driven through the same cases with Blake3_256, Blake3_192, Sha3_256, Rp64_256, RpJive64_256 and Rp62_248 and must return exactly the digests the terms evaluate to (root, prove, prove_batch leaves, get_root, into_openings), accept its own proofs (verify, verify_batch) and build equal batch proofs on both routes. The concurrent build is replayed inside rayon pools of 1,2,3,4,7,8,16 threads for every size (and of 65 and 130 threads for trees of 32..1024 leaves), and build_merkle_nodes / concurrent::build_merkle_nodes are compared node by node with the specification's table.",
     note="Hashing is ideal in the specification (free constructors); leaves are distinct real digests H::hash(\"leaf\"||i). Trees above 64 leaves are bound to the recursive definition through the table operator Table(n), which TLC proves equal to the recursive definition for n <= 64 and which is the same operator for every n. The layout of BatchMerkleProof.nodes is compared as information only (not part of the property). concurrent::build_merkle_nodes is called directly only when leaves/2 >= next_power_of_two(threads) (below that the function is never selected by MerkleTree::new). Serialisation of batch proofs belongs to C07.",
     design="7/C18")
 
@@ -201,6 +202,12 @@ def run(ck, tier):
     nbt = sum(1 for r in bigrecs if r["kind"] == "tree")
     summ, bad = replay_records(ck, "C18", "c18", conc, "concurrent", "conc-big", bigrecs, threads=THREADS, timeout=2400)
     report(ck, bigrecs, bad, "concurrent")
+    # pools with more workers than half the leaves of a small tree (the concurrent builder must not be
+    # selected for them, whatever the threshold is)
+    smallrecs = [r for r in bigrecs if r["n"] <= 1024]
+    summ2, bad2 = replay_records(ck, "C18", "c18", conc, "concurrent", "conc-manythreads", smallrecs, threads=MANY_THREADS, timeout=2400)
+    report(ck, smallrecs, bad2, "concurrent")
+    ck.part("replay_concurrent_many_threads", threads=MANY_THREADS, **summ2["counts"])
     c = summ["counts"]
     ck.traces += c.get("batches", 0) + c.get("trees", 0)
     ck.evaluations += c.get("calls", 0)
